@@ -104,8 +104,13 @@ template <class VarVec>
 double ComputeValue(const AllDiffConstraint& con, const VarVec& x) {
   const auto& args = con.GetArguments();
   for (auto i=args.size(); i--; ) {
-    for (auto j=i; j--; ) {         // Should be integer vars.
-      if (std::round(x[args[i]]) == std::round(x[args[j]]))
+    for (auto j=i; j--; ) {
+      auto vi = args[i], vj = args[j];
+      // Integer variables are compared by their rounded values,
+      // others (AMPL allows them in alldiff) within the tolerance
+      if ((x.is_var_int(vi) && x.is_var_int(vj))
+          ? std::round(x[vi]) == std::round(x[vj])
+          : std::fabs(x[vi] - x[vj]) <= x.feastol())
         return 0.0;
     }
   }
